@@ -67,16 +67,15 @@ def _trrel_uf_tern_reflexive(rec, f):
     return bool(miss) and all(t[-1] == t[-2] for t in miss)
 
 
-@matcher("lattice_read_with_all_columns_bound")
-def _lat_all_cols(rec, f):
-    """F18: a negation (or clause / agg) over a lattice with ALL columns bound reads the lattice's all-columns index,
-    which the head update of lattices never maintains during evaluation: `!d(x, v)` holds although d holds (x, v).
-    Matches only the reader nk of corpus program lat_val_bound: tuples that should have been excluded by the negation
-    are derived (extra tuples / underivable insertions), nothing is missing."""
+@matcher("lattice_read_with_value_column_bound")
+def _lat_value_bound(rec, f):
+    """F18: a lattice read through an index that contains its lattice (last) column - `!d(x, v)`, `d(x, Dual(1))`,
+    `agg .. in d(_, Dual(2))`, a join on the lattice column - sees stale or missing entries: such indices are keyed by
+    the value a row had when it was (re-)inserted; the all-columns index is not maintained at all during evaluation, and
+    in the parallel macros a row that improves again while it is already in `new` is not re-indexed under its new value.
+    Matches only the four readers of corpus program lat_val_bound that bind the lattice column (nk, at1, cnt2, pairs)."""
     case = rec.get("case", {})
     d = rec.get("detail", {})
-    if case.get("prog") != "lat_val_bound" or d.get("rel") != "nk":
+    if case.get("prog") != "lat_val_bound" or d.get("rel") not in ("nk", "at1", "cnt2", "pairs"):
         return False
-    if rec.get("kind") == "underivable-insert":
-        return True
-    return rec.get("kind") == "wrong-result" and not d.get("missing") and bool(d.get("extra"))
+    return rec.get("kind") in ("underivable-insert", "wrong-result")
